@@ -416,12 +416,61 @@ def model_line(case, old=False):
     return " ".join(parts)
 
 
-def run_impl(ctx, exe, cases):
+def build_harness(ctx, sanitize):
+    """the two halves (without / with a real features callback) are built in parallel"""
+    import threading
+    res = {}
+
+    def one(tag, half):
+        try:
+            res[tag] = ctx.cpp("harness/c14.cpp", name="c14" + tag, defines=["C14_HALF=%d" % half],
+                               sanitize=sanitize, extra=[] if sanitize else ["-O0"])
+        except BaseException as ex:            # re-raised by the caller in the main thread
+            res[tag] = ex
+    ths = [threading.Thread(target=one, args=("a", 0)), threading.Thread(target=one, args=("b", 1))]
+    for t in ths:
+        t.start()
+
+    def join():
+        for t in ths:
+            t.join()
+        for tag in ("a", "b"):
+            if isinstance(res.get(tag), BaseException):
+                raise res[tag]
+        return (res["a"], res["b"])
+    return join
+
+
+def run_impl(ctx, exes, cases):
+    """exes = (binary for masks 0-3, binary for masks 4-7); the two run concurrently"""
+    import threading
+    idx = [[i for i, c in enumerate(cases) if not c["mask"] & 4], [i for i, c in enumerate(cases) if c["mask"] & 4]]
+    parts = [None, None]
+
+    def one(h):
+        parts[h] = run_impl_one(ctx, exes[h], [cases[i] for i in idx[h]])
+    ths = [threading.Thread(target=one, args=(h,)) for h in (0, 1)]
+    for t in ths:
+        t.start()
+    for t in ths:
+        t.join()
+    out = [None] * len(cases)
+    for h in (0, 1):
+        for i, o in zip(idx[h], parts[h] or []):
+            out[i] = o
+    for i in range(len(cases)):
+        if out[i] is None:
+            out[i] = {"outcome": "harness-died", "cnt": {"k": 0, "d": 0, "fv": 0, "fd": 0, "cn": 0, "pg": 0},
+                      "echo": {}, "err": "no result"}
+    return out
+
+
+def run_impl_one(ctx, exe, cases):
     out = [None] * len(cases)
     CH = 400
     for s in range(0, len(cases), CH):
         chunk = cases[s:s + CH]
-        r = ctx.run(exe, "".join(impl_line(c) + "\n" for c in chunk), timeout=60 + 25 * len(chunk) // 10)
+        r = ctx.run(exe, "".join(impl_line(c) + "\n" for c in chunk), timeout=60 + len(chunk))
         for line in r.out.splitlines():
             w = line.split(" | ", 1)
             f = w[0].split()
@@ -444,6 +493,13 @@ def run_impl(ctx, exe, cases):
                 out[s + i] = {"outcome": "harness-died" if (r.rc != 0 or r.timed_out) else "garbage",
                               "cnt": {"k": 0, "d": 0, "fv": 0, "fd": 0, "cn": 0, "pg": 0}, "echo": {},
                               "err": (r.err or "")[-300:]}
+        # a library that hangs or kills the harness on many requests: enough evidence, stop here
+        sick = sum(1 for o in out[:s + len(chunk)] if o["outcome"] in ("harness-died", "garbage", "timeout"))
+        if sick >= 20:
+            for i in range(s + len(chunk), len(cases)):
+                out[i] = {"outcome": "not-run", "cnt": {"k": 0, "d": 0, "fv": 0, "fd": 0, "cn": 0, "pg": 0},
+                          "echo": {}}
+            break
     return out
 
 
@@ -470,7 +526,7 @@ def canon_impl(o):
     oc = o["outcome"]
     if oc in VALIDATION_EXC or oc.startswith("stop:"):
         return oc
-    if oc in ("harness-died", "garbage"):
+    if oc in ("harness-died", "garbage", "not-run"):
         return oc
     return "accepted"
 
@@ -504,6 +560,8 @@ def expected_repr(v):
 
 def judge(ctx, case, io, mo, stats):
     """verdict logic for one case; returns True if something was recorded"""
+    if io["outcome"] == "not-run":
+        return False
     ci = canon_impl(io)
     cnt = io["cnt"]
     spec = mo["spec"]
@@ -545,6 +603,10 @@ def judge(ctx, case, io, mo, stats):
                 return True
         stats["echo_checked"] = stats.get("echo_checked", 0) + 1
     # 2. model against implementation
+    if ci in VALIDATION_EXC and cnt["cn"] != mo["trace"].count("cn"):
+        ctx.mismatch(shown, "the cancel function was called %d time(s) before the throw, the model says %d" % (
+            cnt["cn"], mo["trace"].count("cn")))
+        return True
     em = expected_from_model(mo, stopf_of(case))
     if em != ci:
         ctx.mismatch(shown, "model of the generated tables says %s (trace %s), tapkee::embed gave %s" % (
@@ -605,10 +667,18 @@ def run(ctx):
     except t_val.TranslateError as ex:
         translated = False
         ctx.unshown("translator T-val cannot read the validation path of this tree any more: " + str(ex)[:600])
+    join_harness = build_harness(ctx, sanitize=not ctx.quick)      # compiles while Coq / OCaml build
     ctx.note(self_test_translator(ctx, ctx.quick))
     coq = ctx.coq()
-    mexe = ctx.extract()
-    exe = ctx.cpp("harness/c14.cpp", sanitize=not ctx.quick, extra=["-O0"] if ctx.quick else [])
+    try:
+        mexe = ctx.extract()
+    except vlib.BuildError:
+        try:
+            join_harness()                  # do not leave compiler processes behind
+        except Exception:
+            pass
+        raise
+    exe = join_harness()                    # a BuildError here is reported as "no longer shown" by check.py
     doc, gen = load_tables(ctx, mexe)
     stats = {"outcomes": {}}
     cases = []
@@ -661,7 +731,7 @@ def run(ctx):
 def replay(ctx, case):
     sys.path.insert(0, os.path.join(ctx.verif, "translate"))
     mexe = ctx.extract()
-    exe = ctx.cpp("harness/c14.cpp", sanitize=False, extra=["-O0"])
+    exe = build_harness(ctx, sanitize=False)()
     c = {"N": case["N"], "mask": case["mask"], "kws": case["kws"], "gen": "replay"}
     stats = {"outcomes": {}}
     io = run_impl(ctx, exe, [c])[0]
